@@ -93,7 +93,15 @@ static inline std::uint64_t getticks() {
   #error "Unsupported architecture"
 #endif
 
+#ifdef XENIUM_VERIF_HOOKS
+// verification hook: the harness supplies the "random" start index as a recorded, replayable choice
+extern "C" std::uint64_t xenium_verif_random();
+#endif
+
 inline std::uint64_t random() {
+#ifdef XENIUM_VERIF_HOOKS
+  return xenium_verif_random();
+#endif
   return getticks() >> 4;
 }
 } // namespace xenium::utils
